@@ -27,10 +27,14 @@ func (h *harness) writeCases(n int) {
 
 // docFeatures walks a document and names the constructs it uses.
 func docFeatures(v *JV, parentKey string, feat map[string]bool) {
+	docFeaturesAt(v, parentKey, false, feat)
+}
+
+func docFeaturesAt(v *JV, parentKey string, inArray bool, feat map[string]bool) {
 	switch v.kind {
 	case jArr:
 		for _, x := range v.xs {
-			docFeatures(x, parentKey, feat)
+			docFeaturesAt(x, parentKey, true, feat)
 		}
 	case jObj:
 		hasID := v.get("@id") != nil
@@ -40,7 +44,14 @@ func docFeatures(v *JV, parentKey string, feat map[string]bool) {
 		for _, m := range v.ms {
 			switch m.k {
 			case "@context":
-				feat["doc:@context"] = true
+				if parentKey == "" && !inArray {
+					feat["doc:@context"] = true
+				} else {
+					feat["doc:nested-@context"] = true
+					if dl := m.v.get("@language"); dl != nil {
+						feat["doc:nested-@context-with-@language"] = true
+					}
+				}
 				continue
 			case "@list":
 				feat["doc:@list"] = true
@@ -83,7 +94,7 @@ func docFeatures(v *JV, parentKey string, feat map[string]bool) {
 					}
 				}
 			}
-			docFeatures(m.v, m.k, feat)
+			docFeaturesAt(m.v, m.k, false, feat)
 		}
 	case jInt, jDbl:
 		feat["doc:native-number"] = true
@@ -120,11 +131,14 @@ func nativeDoublesOK(v *JV) bool {
 }
 
 func (h *harness) writeOne(ds dataset, ch choices, cfeat map[string]bool, mutate bool) {
-	cj := "-"
+	cj, lj := "-", "-"
 	if ch.context != nil {
 		cj = ch.context.wire()
 	}
-	line := fmt.Sprintf("jl.write %s %s %s %s %s", modeTok(ch.mode11), baseTok(ch.base), ch.wire(), cj, gquadsWire(ds.quads))
+	if ch.local != nil {
+		lj = ch.local.wire()
+	}
+	line := fmt.Sprintf("jl.write %s %s %s %s %s %s", modeTok(ch.mode11), baseTok(ch.base), ch.wire(), cj, lj, gquadsWire(ds.quads))
 	want, _ := gquadsRDF(ds.quads)
 	h.stable(line)
 	h.add(line, func(model string) {
